@@ -20,6 +20,9 @@ CONFIGS = [
     # forced close of holders and waiters (GeneratorExit path with helper activities), body exceptions
     ('close', dict(B, NRoots=1, MaxActs=3, RootOps=5, TaskOps=2, MaxPools=4, ResInit=1,
                    Menu={'instant', 'borrow', 'leave', 'open', 'do', 'raise', 'levels'}), LOOSE),
+    # two holders torn down in ONE activation (failing scope body), supply 2: the dispatched give-backs interleave
+    ('close2', dict(B, NRoots=1, MaxActs=3, RootOps=5, TaskOps=2, MaxPools=4, ResInit=2,
+                    Menu={'instant', 'borrow', 'leave', 'open', 'do', 'raise'}), LOOSE),
     # cancel / until interrupts at every boundary incl. while acquiring or releasing (known finding territory)
     ('cancel', dict(B, NRoots=1, MaxActs=3, RootOps=5, TaskOps=2, MaxPools=4, ResInit=1,
                     Menu={'instant', 'borrow', 'leave', 'open', 'do', 'cancel'}), LOOSE),
@@ -33,8 +36,33 @@ THOROUGH = CONFIGS + [
 
 
 def run(check):
+    from concurrent.futures import ThreadPoolExecutor
     runs = []
-    for label, consts, inv in (CONFIGS if check.tier == 'quick' else THOROUGH):
-        runs += usimrun.explore(check, None, [(label, consts)], invariants=inv,
-                                limit=None if label == 'close' else (12000 if check.tier == 'quick' else 250000))
+
+    def one(cfg):       # the TLC runs of the configurations overlap; replay on the real code is sequential
+        label, consts, inv = cfg
+        lim = (40000 if label in ('close', 'close2') else 12000) if check.tier == 'quick' else 250000
+        return consts, lim, check.witnesses(label, consts, emit='EmitOps', coverage=check.tier == 'thorough', limit=lim,
+                                            invariants=list(inv) + (['NoStuck'] if check.tier == 'thorough' else []))
+    with ThreadPoolExecutor(3) as ex:
+        generated = list(ex.map(one, CONFIGS if check.tier == 'quick' else THOROUGH))
+    for consts, lim, ws in generated:
+        runs += [(p, t, consts['NRoots']) for p, t in usimrun.replay(check, ws, consts, limit=lim)]
+    runs += usimrun.random_runs(check)     # random programs over the whole vocabulary
+    # random tear-downs of several holders of one supply of 3 while the supply is changed / borrowed / probed
+    import random
+    import storm
+    rng = random.Random(check.seed)
+    n = 6000 if check.tier == 'quick' else 60000
+    progs = [storm.res_program(rng)['roots'] for _ in range(n)]
+    world = dict(nres=1, resinit=3)
+    usimrun.WORLD.clear()
+    usimrun.WORLD.update(world)
+    try:
+        results = usimrun.run_many(progs, 2)
+    finally:
+        usimrun.WORLD.clear()
+    runs += [(p, r[0], 2, world) for p, r in zip(progs, results)]
+    check.programs += n
+    check.extra['teardown_storm_programs'] = n
     usimrun.judge(check, OBS, runs)
